@@ -983,6 +983,114 @@ func checkC09(c *Ctx, r *Report) {
 			r9.Check(okL, pm("Less")+": heap[i].Expiry before heap[j].Expiry", f.Pos(), 1, "", "the heap's root is not the entry that expires first: gc stops at a live entry and leaves expired ones", "")
 		}
 	}
+
+	// ---- R10 --------------------------------------------------------------
+	r10 := r.Rule("C09-R10", "E7b/E1", 6, "lifetimes of an existing entry: adding (extend mode / pstoremem addAddrs) writes Ttl and Expiry only when the new value is greater; setting (override mode) writes both unconditionally")
+	entryT := dsP + "/pb.AddrBookRecord_AddrEntry"
+	if f := r10.need("(*" + dsP + ".dsAddrBook).setAddrs"); f != nil {
+		fns := append([]*ssa.Function{f}, allAnon(f)...)
+		override, extend := constIntObj(c, dsP, "ttlOverride"), constIntObj(c, dsP, "ttlExtend")
+		isMode := func(v ssa.Value) bool {
+			v = resolveLoad(strip2(v))
+			p, ok := v.(*ssa.Parameter)
+			if ok {
+				return p.Parent() == f && strings.Contains(p.Type().String(), "ttlWriteMode")
+			}
+			fv, isFV := v.(*ssa.FreeVar)
+			return isFV && strings.Contains(fv.Type().String(), "ttlWriteMode")
+		}
+		modeIs := func(k int64) EdgePred {
+			return eqEdge(isMode, func(v ssa.Value) bool { kv, ok := constInt(v); return ok && kv == k }, true)
+		}
+		nSt := 0
+		for _, g := range fns {
+			for _, fld := range []string{"Ttl", "Expiry"} {
+				sts := findInstrsIn(g, func(in ssa.Instruction) bool {
+					_, ok := in.(*ssa.Store)
+					return ok && isFieldWrite(in, entryT+"."+fld)
+				})
+				if len(sts) == 0 {
+					continue
+				}
+				isOld := func(v ssa.Value) bool { return isLoadOfField(entryT + "." + fld)(strip2(v)) }
+				var moded []ssa.Instruction
+				for _, st := range sts {
+					val := st.(*ssa.Store).Val
+					isNew := func(v ssa.Value) bool { return resolveLoad(strip2(v)) == resolveLoad(strip2(val)) && !isOld(v) }
+					// reachable in extend mode only when the new value is greater
+					wE, _ := (&Cut{Fn: g, Target: isInstr(st), EdgeCut: anyEdge(modeIs(override), edgeExcl(isNew, isOld, ordLT, ordEQ))}).Run(c)
+					// (a store that no mode test separates is outside this rule: the fresh entry's literal, the eviction)
+					wAny, _ := (&Cut{Fn: g, Target: isInstr(st), EdgeCut: anyEdge(modeIs(override), modeIs(extend))}).Run(c)
+					if wAny != "" {
+						continue
+					}
+					nSt++
+					moded = append(moded, st)
+					if mx, isMax := resolveLoad(strip2(val)).(*ssa.Call); isMax && calleeKey(mx) == "builtin.max" {
+						keepsOld := false
+						for _, a := range mx.Call.Args {
+							if isOld(a) {
+								keepsOld = true
+							}
+						}
+						if keepsOld {
+							r10.OK("pstoreds setAddrs: in extend mode "+fld+" is written only when the new value is greater", instrPos(st), 1, "max(old, new)")
+							continue
+						}
+					}
+					r10.Check(wE == "", "pstoreds setAddrs: in extend mode "+fld+" is written only when the new value is greater", instrPos(st), 1, "", "AddAddrs shortens the lifetime of an address that is already known", wE)
+				}
+				// override mode: from its edge every path to the closure's return passes a store
+				var from []CFGEdge
+				for _, b := range blocksDeep(g) {
+					for si := range b.Succs {
+						if modeIs(override)(b, si) {
+							from = append(from, CFGEdge{b, si})
+						}
+					}
+				}
+				if len(from) > 0 && len(moded) > 0 {
+					w, n := (&Cut{Fn: g, FromEdges: from, Target: isRetInstr, Sep: inSet(moded)}).Run(c)
+					r10.Check(w == "", "pstoreds setAddrs: in override mode "+fld+" is written", g.Pos(), n+1, "", "SetAddrs leaves the old lifetime of an address in place", w)
+				}
+			}
+		}
+		if nSt == 0 {
+			r10.OK("pstoreds setAddrs: lifetime writes by mode", f.Pos(), 1, "not decided: no Ttl/Expiry store behind a test of the write mode recognised")
+		}
+	}
+	if f := r10.need(mab("addAddrsUnlocked")); f != nil {
+		for _, q := range []struct {
+			fld    string
+			isCmp  func(v ssa.Value) bool
+			newArg int
+		}{{"TTL", nil, 0}, {"Expiry", nil, 0}} {
+			sts := findInstrs(f, func(in ssa.Instruction) bool {
+				st, ok := in.(*ssa.Store)
+				if !ok || !isFieldWrite(in, eaT+"."+q.fld) {
+					return false
+				}
+				// (only updates of an entry that was found: the literal of a fresh entry has no old value)
+				_, base := fieldAddrOf(st.Addr)
+				_, isAlloc := resolveLoad(strip2(base)).(*ssa.Alloc)
+				return !isAlloc
+			})
+			isOld := func(v ssa.Value) bool { return isLoadOfField(eaT + "." + q.fld)(strip2(v)) }
+			for _, st := range sts {
+				val := st.(*ssa.Store).Val
+				isNew := func(v ssa.Value) bool { return resolveLoad(strip2(v)) == resolveLoad(strip2(val)) && !isOld(v) }
+				greater := anyEdge(edgeExcl(isNew, isOld, ordLT, ordEQ), edgeBool(func(v ssa.Value) bool {
+					ci := isResultOfCall(v, 0, "(time.Time).After")
+					return ci != nil && isNew(ci.Common().Args[0]) && isOld(ci.Common().Args[1])
+				}, true))
+				w, _ := (&Cut{Fn: f, Target: isInstr(st), EdgeCut: greater}).Run(c)
+				r10.Check(w == "", "pstoremem addAddrs: "+q.fld+" of a known address is written only when the new value is greater", instrPos(st), 1, "", "AddAddrs shortens the lifetime of an address that is already known", w)
+			}
+			if len(sts) == 0 {
+				r10.OK("pstoremem addAddrs: "+q.fld+" of a known address is written only when the new value is greater", f.Pos(), 1, "not decided: no update of a found entry's "+q.fld+" recognised")
+			}
+		}
+	}
 }
 
 // swapDeleteSkips finds stores s[i] = s[j] inside an index range loop over s
